@@ -16,6 +16,15 @@
                                      RPC._request  :  session.send(...)   -> TransportError unless session.connected
                   transport/{ssh,tls,unixSocket}.py  close():  _connected = False; what was negotiated (_server_capabilities, _id)
                                      is left as it is.
+   Part 3, the CLOSING operations on that object: a further session.close(), close_session(), leaving `with manager:`.
+   Modelled code  operations/session.py  CloseSession.request:  try: ret = self._request(<close-session/>)
+                                                                 finally: self.session.close()      -- also when the request failed
+                  manager.py  Manager.__exit__:  self.close_session(); return False                 -- whatever the body raised
+                  transport/{tls,unixSocket}.py close():  self._socket.shutdown() [OSError, ValueError caught]; self._socket.close();
+                                     _connected = False          -- the reference to the socket is KEPT: a second close() finds it
+                  transport/ssh.py close():  if self._channel: self._channel.close()
+                                     self._channel = None        -- the reference is dropped, its use is GUARDED
+   The session thread itself called close() when it processed the loss, so each of them is (at least) the second close().
    Definitions only; proofs in Proofs/SessionEndProofs.v. *)
 From NC Require Import Model.Base Model.SessionLTS.
 
@@ -97,3 +106,73 @@ Definition request (needs : list N) (o : eobj) : rout :=
   end.
 
 Definition rout_code (r : rout) : N := match r with RSent => 0 | RRefused => 1 | RMissing => 2 | RCrash => 3 end.
+
+(* ---------------------------------------------------------------------------------------------------------------------
+   Part 3: the closing operations on the object of a session that ended
+   --------------------------------------------------------------------------------------------------------------------- *)
+(* how close() treats the transport handle (socket / SSL object / channel) *)
+Inductive cstyle :=
+| CKeep          (* tls, unix: uses the handle, keeps the reference *)
+| CGuardDrop     (* ssh: uses the handle only if it is there, then drops the reference *)
+| CDrop.         (* uses the handle unguarded AND drops the reference *)
+
+Record tobj := { t_obj : eobj; t_handle : bool }.
+Definition live_t (caps : list N) (sid : N) : tobj := {| t_obj := connected_to caps sid; t_handle := true |}.
+
+Inductive cout := CQuiet | CCrash.      (* close() returned | raised (AttributeError on the missing handle) *)
+
+Definition close_done (t : tobj) (h : bool) : cout * tobj := (CQuiet, {| t_obj := closed (t_obj t); t_handle := h |}).
+Definition close_op (sty : cstyle) (t : tobj) : cout * tobj :=
+  match sty with
+  | CKeep => if t_handle t then close_done t true else (CCrash, t)
+  | CGuardDrop => close_done t false
+  | CDrop => if t_handle t then close_done t false else (CCrash, t)
+  end.
+
+(* CloseSession.request: the request, then close() in a `finally` (an exception of close() replaces the one of the request) *)
+Definition close_session (sty : cstyle) (t : tobj) : rout * tobj :=
+  let r := request [] (t_obj t) in
+  let '(c, t') := close_op sty t in
+  (match c with CCrash => RCrash | CQuiet => r end, t').
+
+(* the body of a with-block *)
+Inductive wbody := BPass | BRaise | BReq (needs : list N).
+Inductive cop := OClose | OCloseSession | OWith (b : wbody) | OReq (needs : list N).
+
+(* outcome codes: 0 returned (request sent, close() done) | 1 TransportError | 2 MissingCapabilityError | 3 another exception
+   | 5 the exception the body raised itself *)
+Definition body_code (b : wbody) (t : tobj) : N :=
+  match b with BPass => 0 | BRaise => 5 | BReq needs => match request needs (t_obj t) with RSent => 0 | r => rout_code r end end.
+
+(* Manager.__exit__: close_session() whatever the body did; an exception of close_session() replaces the one of the body *)
+Definition with_exit (sty : cstyle) (b : wbody) (t : tobj) : N * tobj :=
+  let bc := body_code b t in
+  let '(r, t') := close_session sty t in
+  (match r with RSent => bc | r => rout_code r end, t').
+
+Definition do_cop (sty : cstyle) (op : cop) (t : tobj) : N * tobj :=
+  match op with
+  | OClose => let '(c, t') := close_op sty t in (match c with CQuiet => 0 | CCrash => 3 end, t')
+  | OCloseSession => let '(r, t') := close_session sty t in (rout_code r, t')
+  | OWith b => with_exit sty b t
+  | OReq needs => (rout_code (request needs (t_obj t)), t)
+  end.
+
+Fixpoint run_cops (sty : cstyle) (ops : list cop) (t : tobj) : list N * tobj :=
+  match ops with
+  | [] => ([], t)
+  | op :: rest => let '(c, t1) := do_cop sty op t in let '(cs, t2) := run_cops sty rest t1 in (c :: cs, t2)
+  end.
+
+(* the object after the session thread processed the loss: its close() *)
+Definition lost_t (sty : cstyle) (caps : list N) (sid : N) : tobj := snd (close_op sty (live_t caps sid)).
+
+(* what the PROPERTY asks of each operation on the lost session: close() returns; close_session() and the end of a with-block
+   (whatever its body) are refused with the transport error, as every request that the live session would have sent *)
+Definition expect (caps : list N) (sid : N) (op : cop) : N :=
+  match op with
+  | OClose => 0
+  | OCloseSession => 1
+  | OWith _ => 1
+  | OReq needs => match request needs (connected_to caps sid) with RSent => 1 | r => rout_code r end
+  end.
